@@ -10,7 +10,11 @@ RULE = ("each evaluation = one process: 1024 keys created in index order on the 
         "clear some, and terminate by return / myth_exit / myth_cancel+myth_testcancel; after the joins the per-(thread,key) "
         "call counts must equal the model (1 iff live key with destructor and non-NULL value); a call whose value decodes "
         "to another key or to a key without destructor is an immediate violation; ASan build catches reads outside the key "
-        "table. Additional single-key sweeps run every index 0..1023 as the only key set. Non-trivial = the run expected at "
+        "table. Key-churn evaluations (h_tls_churn): user threads create a key with destructor A, B or none, let 1-3 children "
+        "store a record under it (some clear it) and terminate, join, require calls == (destructor registered and value "
+        "non-NULL) and no call from the other destructor (a former owner's), and only then delete the key, while churner "
+        "threads create/delete keys on the other workers (LIFO free list: indices change owner continuously). "
+        "Additional single-key sweeps run every index 0..1023 as the only key set. Non-trivial = the run expected at "
         "least one destructor call; distinct = distinct (worker count, profile kind, destructor density, thread count).")
 
 
@@ -44,6 +48,28 @@ def run(b, tier, seed, t0):
         cases.append(Case([libx[v], "seed=%d" % (seed * 7 + i), "batches=6", "threads=32", "dtor_density=100", "nkeys=%d" % nk],
                           env=env, timeout=300, weight=2, tag="tlsdtor:%s:nkeys%d" % (v, nk),
                           meta={"nw": 2, "variant": v, "pk": "calm", "shape": "nkeys%d" % nk}))
+    # key churn: keys created/deleted concurrently on all workers while threads holding values terminate
+    chx = {v: b.harness("h_tls_churn.c", b.lib(v)) for v in ("h0", "h2", "asan")}
+    nch = 36 if tier == "quick" else 600
+    for i in range(nch):
+        v = r.choice(["h0", "h2", "h2", "asan"])
+        nw = r.choice([2, 3, 4, 8, 13, 16])
+        env = {"MYTH_NUM_WORKERS": nw, "VERIF_SEED": seed, "MYTH_VERIF_RUNSEED": 9000 + i}
+        pk = r.choice(["calm", "calm", "noise", "targeted"])
+        if pk == "noise":
+            env["MYTH_VERIF_PROFILE"] = "noise%d" % r.choice([1, 2])
+        elif pk == "targeted":
+            env["MYTH_VERIF_PROFILE"] = "targeted:KEY_ALLOC_BEFORE_CAS,KEY_DEALLOC_BEFORE_CAS,KEY_DEALLOC_AFTER_UNLOCK,KEY_ALLOC_AFTER_UNLOCK"
+            env["MYTH_VERIF_TARGET_P"] = r.choice([5, 20])
+        if v == "asan":
+            env.update(core.ASAN_ENV)
+        users = r.choice([2, 4, 8])
+        churners = r.choice([1, 4, 8, 12])
+        cyc = (150 if v == "asan" else 400) * (1 if tier == "quick" else 3)
+        cases.append(Case([chx[v], "seed=%d" % (seed * 100069 + i), "users=%d" % users, "churners=%d" % churners, "cycles=%d" % cyc],
+                          env=env, timeout=300, weight=min(nw, 8),
+                          tag="tlschurn:%s:nw%d:u%dc%d:%d" % (v, nw, users, churners, i),
+                          meta={"nw": nw, "variant": v, "pk": pk, "shape": "churn-u%dc%d" % (users, churners)}))
     core.run_cases(cases)
     sigs = set()
     tot = {}
